@@ -531,8 +531,11 @@ class Case:
         STATE['fee'] = rng.choice([1000, 5000, 20000])
         minc = rng.choice([0, 1])
         fee = rng.choice([None, 1500, 'low', 0])
-        multi = rng.random() < 0.4
-        to = [(EXT['p2pkh'][0], 700), (EXT['p2wsh'][0], 0)] if multi else EXT['p2wpkh'][0]
+        multi = rng.random() < 0.5
+        # several targets: fixed amounts and "the rest" (amount 0) in every position; two rest targets cannot both be served
+        shape = rng.choice(['700,0', '0,700', '700,800,0', '0,0', '700,0,0']) if multi else '-'
+        addrs_ = [EXT['p2pkh'][0], EXT['p2wsh'][0], EXT['p2wpkh'][0]]
+        to = [(addrs_[j_], int(a_)) for j_, a_ in enumerate(shape.split(','))] if multi else EXT['p2wpkh'][0]
         maxu = rng.choice([999, 999, 2])
         rows = w.utxos(min_confirms=minc)[0:maxu]
         rep = {'op': 'sweep', 'kind': self.kind, 'wseed': self.wseed, 'min_confirms': minc, 'fee': fee, 'max_utxos': maxu, 'multi': multi}
@@ -543,7 +546,7 @@ class Case:
             rep['error'] = str(e)[:80]
         line = 'txc_sweep %s %d %s %d %d %d %s' % (','.join(str(u['value']) for u in rows) or '-', self.net.dust_amount,
                                                      fee if isinstance(fee, int) else '-', STATE['fee'], 1 if w.witness_type == 'legacy' else 0,
-                                                     w.multisig_n_required, '700,0' if multi else '-')
+                                                     w.multisig_n_required, shape)
         model = run_driver([line])[0].split(' | ')[0]
         ctx.evals += 1
         ctx.count('sweep:' + ('created' if t is not None else 'refused'))
@@ -560,6 +563,14 @@ class Case:
             got = sorted((i.prev_txid.hex(), i.output_n_int) for i in t.inputs)
             if got != want:
                 ctx.violation('sweep does not consume exactly the listed unspent outputs above the dust limit', dict(rep, observed=len(got), expected=len(want)))
+            if multi:
+                paid = {}
+                for o in t.outputs:
+                    paid[o.address] = paid.get(o.address, 0) + o.value
+                for a_, v_ in to:
+                    if (v_ and paid.get(a_) != v_) or (not v_ and a_ not in paid and sum(req) + t.fee != sum(x[1] for x in to)):
+                        ctx.violation('a requested recipient of a sweep is missing or gets another amount', dict(rep, targets=shape, observed=sorted(paid.values())))
+                        break
             if any(o.address not in (EXT['p2wpkh'][0], EXT['p2pkh'][0], EXT['p2wsh'][0]) for o in t.outputs):
                 ctx.violation('sweep pays an address that was not requested', rep)
         elif model != 'refused' and 'error' in rep and ('dust' in rep['error'] or "no UTXO" in rep['error'] or 'does not match' in rep['error']):
